@@ -12,6 +12,8 @@ Fixpoint items_raise (ext:bool) (items:list bitem) : bool :=
   | BRaise :: _ => true
   | BStmt _ :: r => items_raise ext r
   | BAuto xs :: r => ext || autos_raise xs || items_raise ext r
+  | BTry _ :: r => items_raise ext r           (* whatever the section raises — the assertion under a caller-held
+                                                   transaction included — is swallowed *)
   end.
 (* the body gets as far as entering an autocommit section (which commits the transaction that precedes it) *)
 Fixpoint enters_auto (ext:bool) (items:list bitem) : bool :=
@@ -20,15 +22,23 @@ Fixpoint enters_auto (ext:bool) (items:list bitem) : bool :=
   | BRaise :: _ => false
   | BStmt _ :: r => enters_auto ext r
   | BAuto _ :: _ => negb ext
+  | BTry _ :: r => negb ext || enters_auto ext r
   end.
 Definition step_raises (ext:bool) (sp:step) : bool := items_raise ext (s_body sp) || s_cb_raises sp.
 
-(* the statements of a body that returns *)
+(* the statements of an autocommit section that ran: those before its first raise *)
+Fixpoint autos_run (xs:list aitem) : list stmt :=
+  match xs with [] => [] | ARaise :: _ => [] | AStmt x :: r => x :: autos_run r end.
+Definition try_free (items:list bitem) : bool := forallb (fun it => match it with BTry _ => false | _ => true end) items.
+
+(* the statements of a body that returns (under a caller-held transaction a tolerated section does not run at all:
+   see no_partial_commit) *)
 Definition item_stmts (it:bitem) : list stmt :=
   match it with
   | BStmt x => [x]
   | BAuto xs => flat_map (fun a => match a with AStmt x => [x] | ARaise => [] end) xs
   | BRaise => []
+  | BTry xs => autos_run xs
   end.
 Definition body_stmts (items:list bitem) : list stmt := flat_map item_stmts items.
 
@@ -77,6 +87,7 @@ Fixpoint none_enters (steps:list step) : bool :=       (* up to and including th
   | sp :: r => negb (enters_auto false (s_body sp)) && (step_raises false sp || none_enters r)
   end.
 Definition no_partial_commit (i:input) : bool :=
+  negb (i_external i && negb (forallb (fun sp => try_free (s_body sp)) (i_steps i))) &&
   match fail_index i with
   | None => true
   | Some k => if i_external i then true
